@@ -41,23 +41,26 @@ type edgeState struct {
 }
 
 type Exec struct {
-	c        *Ctx
-	fn       *ssa.Function
-	con      *Contract
-	env      map[ssa.Value]Val
-	edges    map[*ssa.BasicBlock]map[*ssa.BasicBlock]State // from -> to -> state
-	loops    map[*ssa.BasicBlock]*loopInfo
-	params   map[string]Val
-	nopanic  bool
-	callOrd  map[string]int
-	curBlock *ssa.BasicBlock
-	curLoop  *loopInfo
-	names    map[string]Val // source-level names currently visible (phis, debugrefs)
-	panicsOK string         // entry-state condition under which panics are permitted ("" = never)
-	retCount int
-	retPCs   []string
-	locals   []localCell
-	hasRet   bool
+	c                 *Ctx
+	fn                *ssa.Function
+	con               *Contract
+	env               map[ssa.Value]Val
+	edges             map[*ssa.BasicBlock]map[*ssa.BasicBlock]State // from -> to -> state
+	loops             map[*ssa.BasicBlock]*loopInfo
+	params            map[string]Val
+	nopanic           bool
+	callOrd           map[string]int
+	curBlock          *ssa.BasicBlock
+	curLoop           *loopInfo
+	names             map[string]Val // source-level names currently visible (phis, debugrefs)
+	panicsOK          string         // entry-state condition under which panics are permitted ("" = never)
+	retCount          int
+	retPCs            []string
+	cells             map[string]Val // named heap-allocated locals
+	locals            []localCell
+	captured          []localCell // cells of captured variables (free variables, heap-allocated named locals)
+	calleeSharesCells bool
+	hasRet            bool
 }
 
 type unsupportedErr string
@@ -152,6 +155,9 @@ func (e *Exec) run() {
 		c.fact(c.allocFact(entry, v))
 		if v.S == SRef {
 			c.fact(fmt.Sprintf("(not (= %s nil))", v.T)) // a captured variable's cell always exists
+			if ct := deref(fv.Type()); !isStruct(ct) && !isArray(ct) {
+				e.captured = append(e.captured, localCell{c.cellComp(ct), v.T})
+			}
 		}
 		_ = i
 	}
@@ -519,6 +525,11 @@ func (e *Exec) enterLoop(li *loopInfo, st State) State {
 		old := heap
 		heap = c.hhavocExcept(old, func(n string) bool { return false })
 		c.allocMonotone(old, heap)
+	} else if comps["$user"] {
+		// user code may run in the loop: everything it can reach changes, plus the listed components
+		old := heap
+		heap = c.hhavocExcept(old, func(n string) bool { return e.isZapPrivateComp(n) && !comps[n] })
+		c.allocMonotone(old, heap)
 	} else {
 		var names []string
 		for n := range comps {
@@ -766,6 +777,9 @@ func (c *Ctx) globalRef(g *ssa.Global) Val {
 		}
 		sort.Strings(others)
 		for _, o := range others {
+			c.decls = append(c.decls, fmt.Sprintf("(assert (not (= %s %s)))", n, o))
+		}
+		for _, o := range c.gconstObjs {
 			c.decls = append(c.decls, fmt.Sprintf("(assert (not (= %s %s)))", n, o))
 		}
 	}
@@ -1070,6 +1084,17 @@ func (e *Exec) execAlloc(x *ssa.Alloc, st *State) {
 		}
 	}
 	e.env[x] = Val{T: r, S: SRef, GT: x.Type()}
+	if x.Comment != "" && x.Heap {
+		if e.cells == nil {
+			e.cells = map[string]Val{}
+		}
+		if _, dup := e.cells[x.Comment]; !dup {
+			e.cells[x.Comment] = Val{T: r, S: SRef, GT: x.Type()}
+		}
+		if !isStruct(t) && !isArray(t) && e.onlyCapturedByClosures(x) {
+			e.captured = append(e.captured, localCell{c.cellComp(t), r})
+		}
+	}
 }
 
 func (e *Exec) idxVal(v Val, t types.Type) string {
@@ -1468,6 +1493,7 @@ func (e *Exec) immutableGlobal(g *ssa.Global) (Val, bool) {
 		return Val{}, false
 	}
 	nonNil := false
+	freshObj := false
 	for _, mem := range g.Pkg.Members {
 		fn, ok := mem.(*ssa.Function)
 		if !ok {
@@ -1492,9 +1518,10 @@ func (e *Exec) immutableGlobal(g *ssa.Global) (Val, bool) {
 								nonNil = true
 							}
 							if call, ok := st.Val.(*ssa.Call); ok {
-								if sc := call.Common().StaticCallee(); sc != nil && (sc.String() == "errors.New" || sc.String() == "fmt.Errorf" || strings.HasPrefix(sc.String(), zapMod+"/internal/pool.New[")) {
+								if sc := call.Common().StaticCallee(); sc != nil && (sc.String() == "errors.New" || sc.String() == "fmt.Errorf" || returnsFreshAlloc(sc)) {
 									// errors.New, fmt.Errorf and pool.New (which returns &Pool{...}) never return nil
 									nonNil = true
+									freshObj = returnsFreshAlloc(sc)
 								}
 							}
 							continue
@@ -1549,6 +1576,20 @@ func (e *Exec) immutableGlobal(g *ssa.Global) (Val, bool) {
 	if nonNil && s == SRef {
 		c.decl("gconst-nonnil:"+n, fmt.Sprintf("(assert (not (= %s nil)))", n))
 	}
+	if freshObj && s == SRef {
+		// the object was allocated by the initialiser: a heap object of its own, distinct from
+		// every package-level variable
+		c.decl("gconst-root:"+n, fmt.Sprintf("(assert (= (root %s) %s))", n, n))
+		c.gconstObjs = append(c.gconstObjs, n)
+		var gs []string
+		for o := range c.globals {
+			gs = append(gs, o)
+		}
+		sort.Strings(gs)
+		for _, o := range gs {
+			c.decls = append(c.decls, fmt.Sprintf("(assert (not (= %s %s)))", n, o))
+		}
+	}
 	c.immGlobals[g] = &v
 	return v, true
 }
@@ -1589,4 +1630,43 @@ func (e *Exec) checkRefines(st *State, results []Val, pos token.Pos) {
 			c.oblige("refine", fmt.Sprintf("refine[%s:%d]@ret%d", lastSeg(id), i+1, e.retCount), st.pc, g, "interface contract "+id+": "+en.Src, e.pos(pos))
 		}
 	}
+}
+
+// onlyCapturedByClosures: the address of the local is used only by loads, stores and as a
+// closure binding (so only this function and its closures can reach the cell).
+func (e *Exec) onlyCapturedByClosures(a *ssa.Alloc) bool {
+	for _, ref := range *a.Referrers() {
+		switch r := ref.(type) {
+		case *ssa.Store:
+			if r.Val == ssa.Value(a) {
+				return false
+			}
+		case *ssa.UnOp, *ssa.DebugRef:
+		case *ssa.MakeClosure:
+		default:
+			return false
+		}
+	}
+	return true
+}
+
+// returnsFreshAlloc: every return of f yields the address of an object allocated in f
+// (so the result is never nil). Purely syntactic.
+func returnsFreshAlloc(f *ssa.Function) bool {
+	if f == nil || len(f.Blocks) == 0 || f.Signature.Results().Len() != 1 {
+		return false
+	}
+	found := false
+	for _, b := range f.Blocks {
+		for _, ins := range b.Instrs {
+			if r, ok := ins.(*ssa.Return); ok {
+				a, ok := r.Results[0].(*ssa.Alloc)
+				if !ok || !a.Heap {
+					return false
+				}
+				found = true
+			}
+		}
+	}
+	return found
 }
